@@ -54,8 +54,10 @@ theorem classify_trap_sound (o : Obs) (t : Trap) (h : classify o = .trap t) :
         split at h
         next hm =>
           injection h with h; subst h
-          have h3 : (t'.status == o.status) = true := List.find?_some ht
-          exact ⟨rfl, (Nat.eq_of_beq_eq_true h3).symm, hm⟩
+          unfold trapOfStatus at ht
+          have h3 := List.find?_some ht
+          have h4 : t'.status = o.status := by simpa using h3
+          exact ⟨rfl, h4.symm, hm⟩
         next => cases h
       next =>
         split at h
